@@ -58,7 +58,7 @@ func runC16(cfg *vh.Config) error {
 	res := vh.NewResult("C16", cfg.Seed)
 	res.Rule = "generated valid j5s packages (2-6 objects/oneofs/enums with self and mutual recursion, every scalar/array/map/ref field type, 1-2 services x 1-4 methods over all five verbs with 0-2 path parameters of every scalar type, list methods over (recursive) item objects, methods without response, topics, entities) through the real chain compile -> PrintFile -> ReadFSImage -> APIFromImage -> APIFromSource -> J5 JSON -> BuildSwagger -> json.Marshal in crash-isolated workers; the same packages with a mutated service file (renamed service/request/response, removed or custom http rule, broken path); hand-built service names and method descriptors; hand-built source APIs with random cyclic schema graphs, odd paths and list responses. non-trivial = distinct generated input"
 	cf := &vh.CasesFile{
-		Header: "From Coq Require Import String List NArith.\nFrom J5V.lib Require Import Outcome.\nFrom J5V.model Require Import Pipeline PipelineEntity PipelineCorr.",
+		Header: "From Coq Require Import String List NArith.\nFrom J5V.lib Require Import Outcome.\nFrom J5V.model Require Import Pipeline PipelineEntity PipelineList PipelineCorr.",
 		Type:   "c16case",
 		Check:  "c16_check",
 	}
@@ -87,6 +87,9 @@ func runC16(cfg *vh.Config) error {
 	var pks []pk
 	var jobs []*Job
 	for i := 0; i < nPkg+nAwk; i++ {
+		if i >= 5 && i < 8 {
+			forcedClash = i - 5 // one package of each known-finding class in every run
+		}
 		p := genPackage(rp, i >= nPkg)
 		pks = append(pks, pk{p: p})
 		jobs = append(jobs, &Job{ID: len(jobs), Kind: "j5s", Pkg: p.Pkg, Files: map[string]string{strings.ReplaceAll(p.Pkg, ".", "/") + "/a.j5s": p.text()}})
@@ -169,7 +172,11 @@ func runC16(cfg *vh.Config) error {
 				switch {
 				case p.Clash == "case" && strings.Contains(bad.Msg, "camel-case name"):
 					sig = "C16 valid package with enum options that differ only in case (Active, ACTIVE) -> stage image err: camel-case name conflict of enum values"
-				case p.Clash == "split" && strings.Contains(bad.Msg, "interface conversion") && strings.Contains(bad.Msg, "EnumSchema"):
+				case p.Clash == "enumdefault" && strings.Contains(bad.Msg, "unknown enum value"):
+					sig = "C16 valid package with an enum field whose listRules.filtering.defaultFilters names no option -> stage " + bad.Name + " err: unknown enum value (buildListRequest)"
+				case p.Clash == "split" && (strings.Contains(bad.Msg, "is used by an enum and by a message or oneof") ||
+					strings.Contains(bad.Msg, "interface conversion") && strings.Contains(bad.Msg, "EnumSchema")):
+					// since /repo 32db692 an error of the source stage; a revert brings the panic signature back (unlisted)
 					sig = "C16 valid package with object SplitHost_Kind next to SplitHost's inline enum kind -> stage " + bad.Name + " " + bad.Status + ": split-name collision (buildEnumFieldSchema)"
 				}
 				res.Fail(vh.Failure{Case: caseNo, Stream: stream, Sig: sig,
@@ -183,8 +190,14 @@ func runC16(cfg *vh.Config) error {
 		if r.Img == nil || r.status("source") == "none" {
 			continue
 		}
+		if p.Clash == "split" {
+			// the split-name collision (an object named like an inline enum's generated name) is a name-resolution
+			// defect below the model's schema keys: reported by the direct oracle only
+			res.Count(stream + ":split-name collision package (direct oracle only)")
+			continue
+		}
 		sk, ck, wk := stageKind(r.status("source")), stageKind(r.status("client")), stageKind(r.status("swagger"))
-		term := fmt.Sprintf("CChainE %s %s\n    %d %s\n    %d %s %s %s %d", coqAnns(r.Img), coqImg(r.Img), sk, coqSrcObs(r.Src), ck, coqMethodObs(r.Methods), coqKeys(r.Schemas), coqEntObs(r.EntObs), wk)
+		term := fmt.Sprintf("CChainE %s %s\n    %s\n    %d %s\n    %d %s %s %s\n    %s %d", coqAnns(r.Img), coqImg(r.Img), coqRules(r.Img), sk, coqSrcObs(r.Src), ck, coqMethodObs(r.Methods), coqKeys(r.Schemas), coqEntObs(r.EntObs), coqListObs(r.Methods), wk)
 		addCase(stream, term, input, map[string]any{"stages": r.Stages, "methods": r.Methods, "schemas": r.Schemas})
 		if pks[i].mut == nil && r.status("source") == "ok" {
 			decl, extra := coqDeclPackage(p, r.Img)
